@@ -357,6 +357,7 @@ def run(ctx: Ctx):
     _score_term_reads_the_corrected_integrand(ctx)
     _both_parameterisations_normalised(ctx)
     _either_representation_alias_is_metadata_only(ctx)
+    _categorical_tlog_prob_table(ctx)
     _callback_results_not_mutated(ctx)
     _unbiased_defaults_and_exact_tables(ctx)
     plumbing(ctx, "S6")
@@ -680,6 +681,47 @@ def _both_parameterisations_normalised(ctx: Ctx):
                f"a normalised parameter, so with un-normalised {tg[0].attr} the probabilities over the one-hot support do not sum "
                f"to one and log P(z) != log P(H(z)) + log P(z | H(z))", rel, st.lineno)
     col.floor("gumbel_parameter_stores", n_, 2)
+
+
+def _categorical_tlog_prob_table(ctx: Ctx):
+    """S15 by value: `GumbelOneHotCategorical.tlog_prob` interpreted over exact values (sa/interp.py + sa/teval.py) for logits with a
+    MASKED class (-inf, the usual way to exclude a category), unbatched and batched, and every one-hot sample: the result is the logit
+    of the selected class - finite whenever the selected class is not the masked one. (Written as a product with the one-hot vector,
+    -inf * 0 is NaN for every sample; thresholded probabilities over the support then no longer sum to one.)"""
+    import math
+    import numpy as np
+    from fractions import Fraction as Fr
+    from sa.interp import Interp
+    from sa.inteval import NotEvaluable
+    from sa.teval import frac_array
+    col, pkg = ctx.col, ctx.pkg
+    f = pkg.func("_straight_through::GumbelOneHotCategorical.tlog_prob")
+    rel = f.module.relname
+    bname = f.params[1].name
+    rows, bad = 0, None
+    try:
+        for logits in ([Fr(-1), Fr(-2), -math.inf], [[Fr(-1, 2), -math.inf, Fr(-3)], [Fr(-2), Fr(-1), Fr(-5, 2)]]):
+            L = np.array(logits, dtype=object)
+            K = L.shape[-1]
+            for k_ in range(K):
+                b = np.zeros(L.shape, dtype=object)
+                b[...] = Fr(0)
+                b[..., k_] = Fr(1)
+                env = {bname: b, "self.logits": L, "self._validate_args": False}
+                kind, got = Interp(tensors=True).run(f.node, env)
+                rows += 1
+                want = L[..., k_]
+                g = np.asarray(got, dtype=object) if kind == "return" else None
+                ok = g is not None and g.shape == np.asarray(want, dtype=object).shape and all(
+                    (a_ == b_) for a_, b_ in zip(g.reshape(-1).tolist(), np.asarray(want, dtype=object).reshape(-1).tolist()))
+                if not ok and bad is None:
+                    bad = (logits, k_, [str(v_) for v_ in g.reshape(-1).tolist()] if g is not None else f"{kind} {got}", [str(v_) for v_ in np.asarray(want, dtype=object).reshape(-1).tolist()])
+    except NotEvaluable:
+        return
+    col.count("categorical_tlog_prob_rows", rows)
+    col.ob("G12", "S15", f"{rel}::GumbelOneHotCategorical.tlog_prob::selected-logit-table", bad is None,
+           (f"logits {bad[0]} and the one-hot sample of class {bad[1]}: tlog_prob gives {bad[2]}; the log-probability of the selected class is {bad[3]}") if bad else "",
+           rel, f.line, sample=dict(rows=rows))
 
 
 def _either_representation_alias_is_metadata_only(ctx: Ctx):
